@@ -5,7 +5,8 @@
 From Coq Require Import List NArith ZArith Bool Arith.
 From Coq.Strings Require Import Byte.
 Import ListNotations.
-From BWExec Require Import Base Values Store Driver Exec Spec BaseProofs StoreProofs ExecProofs.
+From BWExec Require Import Base Values Store Driver Exec Spec BaseProofs StoreProofs ExecProofs Corr CorrProofs.
+Open Scope nat_scope.
 
 (* ---- INSERT / DELETE: every named graph that exists gets exactly the union / difference; the statement succeeds
    iff every named graph exists; when one is missing the others are still written (update() joins the errors) ---- *)
@@ -57,7 +58,7 @@ Theorem C04_construct :
   (forall g, In g (ins ++ outs) -> has st g = true) -> q_ok q = true -> r = ROk ->
   exists gs i',
     produced (output_bindings tmpl) draw 0 (list_prod tmpl (q_rows q)) gs i' /\
-    length gs = length tmpl * length (q_rows q) /\
+    (length gs = length tmpl * length (q_rows q))%nat /\
     (forall g, In g outs -> forall t, In t (getd st' g) <-> In t (getd st g) \/ In t (concat gs)) /\
     (forall g, ~ In g outs -> get st' g = get st g).
 Proof.
@@ -129,7 +130,7 @@ Theorem C04_deconstruct :
   (forall g, In g (ins ++ outs) -> has st g = true) -> q_ok q = true -> r = ROk ->
   exists gs i',
     produced (output_bindings tmpl) draw 0 (list_prod tmpl (q_rows q)) gs i' /\
-    length gs = length tmpl * length (q_rows q) /\
+    (length gs = length tmpl * length (q_rows q))%nat /\
     (forall g, In g outs -> forall t, In t (getd st' g) <-> In t (getd st g) /\ ~ In t (concat gs)) /\
     (forall g, ~ In g outs -> get st' g = get st g).
 Proof.
@@ -199,6 +200,25 @@ Print Assumptions C04_refines_spec.
 Theorem C04_wellformed : forall bulk ss st, WF st -> WF (run bulk st ss).
 Proof. exact run_WF. Qed.
 Print Assumptions C04_wellformed.
+
+(* ---- what the differential comparison of the check means (Corr.stores_iso, evaluated by vm_compute on every observed
+   step): when it answers true, there is an injective renaming of the blank ids that are new in the model store
+   (>= base) into blank ids that are new in the observed store (not old) under which both stores have the same graph
+   names and every graph the same set of triples ---- *)
+Theorem C04_comparison_sound :
+  forall old base sm so, stores_iso old base sm so = true ->
+  exists l : list (N * N),
+    NoDup (map fst l) /\ NoDup (map snd l) /\
+    (forall a, In a (map fst l) <-> (In a (store_blanks sm) /\ (base <= a)%N)) /\
+    (forall b, In b (map snd l) -> In b (store_blanks so) /\ ~ In b old) /\
+    (forall n, In n (names (ren_store l sm)) <-> In n (names so)) /\
+    (forall n, In n (names (ren_store l sm)) -> forall t, In t (getd (ren_store l sm) n) <-> In t (getd so n)).
+Proof.
+  intros old base sm so H. destruct (stores_iso_sound old base sm so H) as [l [A [B [C [D E]]]]].
+  exists l. destruct E as [E1 E2].
+  split; [exact A|]. split; [exact B|]. split; [exact C|]. split; [exact D|]. split; [exact E1 | exact E2].
+Qed.
+Print Assumptions C04_comparison_sound.
 
 (* ---- the freshness hypothesis is satisfiable: counting upwards from above every old id ---- *)
 Theorem C04_fresh_supply_exists : forall old, fresh_supply old (counter_supply old).
